@@ -19,6 +19,7 @@ import (
 	"github.com/scrapli/scrapligo/driver/network"
 	"github.com/scrapli/scrapligo/driver/opoptions"
 	"github.com/scrapli/scrapligo/driver/options"
+	"github.com/scrapli/scrapligo/response"
 	"github.com/scrapli/scrapligo/util"
 
 	"verifgo/facts"
@@ -45,6 +46,82 @@ var c05kindName = map[string]string{"si": "generic.SendCommand", "gp": "generic.
 	"au": "in-channel telnet login (Open)", "he": "netconf.Open (server hello)", "rp": "netconf RPC", "cb": "generic.SendWithCallbacks",
 	"nw": "network.SendCommand with implicit AcquirePriv"}
 
+// c05ncOps: every public NETCONF operation that sends an RPC and waits for its reply
+type c05ncOp struct {
+	name string
+	opts bool // accepts operation options (per-operation timeout possible)
+	call func(d *netconf.Driver, o ...util.Option) (*response.NetconfResponse, error)
+}
+
+var c05ncOps = []c05ncOp{
+	{"Get", true, func(d *netconf.Driver, o ...util.Option) (*response.NetconfResponse, error) { return d.Get("", o...) }},
+	{"GetConfig", true, func(d *netconf.Driver, o ...util.Option) (*response.NetconfResponse, error) {
+		return d.GetConfig("running", o...)
+	}},
+	{"EditConfig", false, func(d *netconf.Driver, _ ...util.Option) (*response.NetconfResponse, error) {
+		return d.EditConfig("candidate", "<config><a/></config>")
+	}},
+	{"CopyConfig", false, func(d *netconf.Driver, _ ...util.Option) (*response.NetconfResponse, error) {
+		return d.CopyConfig("running", "startup")
+	}},
+	{"DeleteConfig", false, func(d *netconf.Driver, _ ...util.Option) (*response.NetconfResponse, error) {
+		return d.DeleteConfig("candidate")
+	}},
+	{"Lock", false, func(d *netconf.Driver, _ ...util.Option) (*response.NetconfResponse, error) {
+		return d.Lock("candidate")
+	}},
+	{"Unlock", false, func(d *netconf.Driver, _ ...util.Option) (*response.NetconfResponse, error) {
+		return d.Unlock("candidate")
+	}},
+	{"Validate", false, func(d *netconf.Driver, _ ...util.Option) (*response.NetconfResponse, error) {
+		return d.Validate("candidate")
+	}},
+	{"Commit", true, func(d *netconf.Driver, o ...util.Option) (*response.NetconfResponse, error) { return d.Commit(o...) }},
+	{"Discard", false, func(d *netconf.Driver, _ ...util.Option) (*response.NetconfResponse, error) { return d.Discard() }},
+	{"RPC", true, func(d *netconf.Driver, o ...util.Option) (*response.NetconfResponse, error) {
+		return d.RPC(append([]util.Option{opoptions.WithFilter("<get-schema/>")}, o...)...)
+	}},
+	{"EstablishPeriodicSubscription", false, func(d *netconf.Driver, _ ...util.Option) (*response.NetconfResponse, error) {
+		return d.EstablishPeriodicSubscription("/x", 1000)
+	}},
+}
+
+func c05name(cs c05case) string {
+	if cs.kind == "rq" {
+		return "netconf." + c05ncOps[cs.variant%100].name
+	}
+	return c05kindName[cs.kind]
+}
+
+func c05sig(cs c05case) string {
+	if cs.kind == "rq" {
+		return "rq:" + c05ncOps[cs.variant%100].name
+	}
+	return cs.kind
+}
+
+var (
+	c05sitesOnce sync.Once
+	c05sites     map[string]facts.RPCSite
+)
+
+// c05source: how the operation's call site builds its options, read from the source with the
+// translator's own extractor ("n" NewOperation, "l" struct literal); the model takes it as input
+func c05source(name string) string {
+	c05sitesOnce.Do(func() {
+		facts.Repo = repoDir()
+		c05sites = map[string]facts.RPCSite{}
+		sites, _ := facts.FindRPCSites()
+		for _, s := range sites {
+			c05sites[s.Func] = s
+		}
+	})
+	if s, ok := c05sites[name]; ok && !s.ViaNewOperation {
+		return "l"
+	}
+	return "n"
+}
+
 type c05case struct {
 	kind    string
 	variant int
@@ -61,7 +138,7 @@ func (cs c05case) line() string {
 // rough exchange lengths, used only to budget delivery time: on a loaded machine every read costs
 // about one millisecond whatever the configured read delay (sleep granularity), so an exchange
 // that is delivered one byte per read needs that much time before its stall point is even reached
-var c05len = map[string]int{"si": 40, "gp": 8, "ia": 60, "au": 30, "he": 190, "rp": 150, "cb": 45, "nw": 100}
+var c05len = map[string]int{"si": 40, "gp": 8, "ia": 60, "au": 30, "he": 190, "rp": 150, "rq": 170, "cb": 45, "nw": 100}
 
 // c05timeouts: connection-wide and per-operation timeout of a case (perOp < 0: not given).
 func c05timeouts(cs c05case) (conn, perOp time.Duration) {
@@ -359,12 +436,15 @@ func c05build(cs c05case) (*c05env, error) {
 		e.modelParams = []string{"1000", "0a", hx("admin"), hx("s3cret")}
 		connOnly()
 		e.cmpResult = false
-	case "he", "rp":
-		v11 := cs.kind == "rp" && cs.variant == 1
+	case "he", "rp", "rq":
+		v11 := (cs.kind == "rp" && cs.variant == 1) || (cs.kind == "rq" && cs.variant >= 100)
 		srv := sim.NewNCServer(true, v11)
 		srv.Seg = c05seg(cs)
 		srv.Behave = func(i int, req sim.NCRequest) sim.NCReply {
 			p := fmt.Sprintf(`<rpc-reply xmlns="urn:ietf:params:xml:ns:netconf:base:1.0" message-id="%d"><data><n>%d</n><v>ok</v></data></rpc-reply>`, req.MessageID, i)
+			if strings.Contains(string(req.Raw), "establish-subscription") {
+				p = fmt.Sprintf(`<rpc-reply xmlns="urn:ietf:params:xml:ns:netconf:base:1.0" message-id="%d"><subscription-result xmlns="urn:ietf:params:xml:ns:yang:ietf-event-notifications">notif-bis:ok</subscription-result><n>%d</n><subscription-id xmlns="urn:ietf:params:xml:ns:yang:ietf-event-notifications">7</subscription-id></rpc-reply>`, req.MessageID, i)
+			}
 			return sim.NCReply{Payload: []byte(p), Chunks: []int{25}}
 		}
 		srv.Hello = []byte(`<hello xmlns="urn:ietf:params:xml:ns:netconf:base:1.0"><capabilities><capability>urn:ietf:params:netconf:base:1.0</capability>` +
@@ -400,6 +480,21 @@ func c05build(cs c05case) (*c05env, error) {
 				}
 				return string(r.RawResult), nil
 			}
+			if cs.kind == "rq" {
+				nc := c05ncOps[cs.variant%100]
+				o := opOpts
+				if !nc.opts {
+					o = nil
+					connOnly()
+				}
+				e.op = func() (string, error) {
+					r, err := nc.call(d, o...)
+					if err != nil {
+						return "", err
+					}
+					return string(r.RawResult), nil
+				}
+			}
 			e.next = func() (string, error) {
 				r, err := d.GetConfig("running", opoptions.WithTimeoutOps(c05Long))
 				if err != nil {
@@ -420,6 +515,16 @@ func c05build(cs c05case) (*c05env, error) {
 			}
 			e.modelKind = "rp"
 			e.modelParams = []string{ver}
+			if cs.kind == "rq" {
+				nc := c05ncOps[cs.variant%100]
+				e.modelKind = "rq"
+				po := "-"
+				if nc.opts && perOp >= 0 {
+					po = strconv.Itoa(int(perOp / time.Millisecond))
+				}
+				e.modelParams = []string{ver, c05source(nc.name), po}
+				e.T = conn // the model derives the timer from the connection-wide value and the options source
+			}
 		}
 	default:
 		return nil, fmt.Errorf("unknown kind %q", cs.kind)
@@ -452,6 +557,18 @@ type c05obs struct {
 
 // c05guard runs f with a watchdog and a panic trap (a panic in the caller's goroutine).
 func c05guard(f func() (string, error)) (res string, err error, elapsed time.Duration, hang bool, pmsg string) {
+	return c05guardT(f, c05Watchdog)
+}
+
+// c05wd: the NETCONF operation sweep uses timeouts <= 2 s, so a shorter watchdog settles "hang"
+func c05wd(cs c05case) time.Duration {
+	if cs.kind == "rq" {
+		return 2500 * time.Millisecond
+	}
+	return c05Watchdog
+}
+
+func c05guardT(f func() (string, error), wd time.Duration) (res string, err error, elapsed time.Duration, hang bool, pmsg string) {
 	type out struct {
 		r string
 		e error
@@ -472,7 +589,7 @@ func c05guard(f func() (string, error)) (res string, err error, elapsed time.Dur
 	select {
 	case o := <-ch:
 		return o.r, o.e, time.Since(t0), false, o.p
-	case <-time.After(c05Watchdog):
+	case <-time.After(wd):
 		return "", nil, time.Since(t0), true, ""
 	}
 }
@@ -516,7 +633,7 @@ func c05run(cs c05case, recoverFrom int) c05obs {
 			}
 		})
 	}
-	res, opErr, el, hang, pmsg := c05guard(e.op)
+	res, opErr, el, hang, pmsg := c05guardT(e.op, c05wd(cs))
 	o.result, o.elapsed, o.hang, o.panicMsg = res, el, hang, pmsg
 	o.class = errClass(opErr)
 	e.pipe.Snapshot(func() {
@@ -774,7 +891,48 @@ func runC05(c *ctx) {
 			c05check(c, ref, cases)
 		}
 	}
-	c05f12(c, c.n(5000, 15000))
+	// EVERY public NETCONF operation (the property says "every RPC"): stall right after the request
+	// was written and in the middle of the reply; connection-wide timeout, and a per-operation one
+	// where the operation takes options
+	for idx, nc := range c05ncOps {
+		for _, v11 := range []bool{false, true} {
+			if !c.thorough() && (idx%2 == 1) != v11 {
+				continue
+			}
+			variant := idx
+			if v11 {
+				variant += 100
+			}
+			ref := c05reference("rq", variant)
+			if ref.err != "" {
+				res.Fail("oracle", c05case{kind: "rq", variant: variant, setting: "ref", k: -1, seed: 1}.line(), ref.err, "reference-run-failed:rq:"+nc.name)
+				continue
+			}
+			settings := []string{"conn"}
+			if nc.opts {
+				settings = append(settings, "pshort")
+				if c.thorough() {
+					settings = append(settings, "plong")
+				}
+			}
+			ks := []int{0, ref.total / 2}
+			if c.thorough() {
+				ks = []int{0, 1, ref.total / 3, ref.total / 2, ref.total - 2, ref.total - 1, ref.total}
+			}
+			var cases []c05case
+			for _, setting := range settings {
+				for _, k := range ks {
+					seg := 0
+					if c.thorough() {
+						seg = c.rng.Intn(3)
+					}
+					cases = append(cases, c05case{kind: "rq", variant: variant, seg: seg, setting: setting, k: k, seed: c.rng.U64()})
+				}
+			}
+			c05check(c, ref, cases)
+		}
+	}
+	c05f12(c, c.n(3000, 15000))
 }
 
 type c05ans struct {
@@ -817,7 +975,7 @@ func c05check(c *ctx, ref *c05ref, cases []c05case) {
 	if kind == "cb" {
 		conc = 8 // the callback reader spins without sleeping
 	}
-	if c05hangGroups >= 2 {
+	if c05hangGroups >= 2 && kind != "rq" {
 		res.Count("groups-skipped-after-confirmed-hangs")
 		return
 	}
@@ -865,7 +1023,11 @@ func c05check(c *ctx, ref *c05ref, cases []c05case) {
 		e, _ := c05build(cs)
 		return e.wantT(c05stalledPhase(ref, cs.k))
 	}
-	for attempt := 0; attempt < 2; attempt++ {
+	attempts := 2
+	if kind == "rq" {
+		attempts = 1 // cheap, independent groups: one confirmation run is enough
+	}
+	for attempt := 0; attempt < attempts; attempt++ {
 		var again []int
 		nh := 0
 		for i, cs := range cases {
@@ -883,7 +1045,7 @@ func c05check(c *ctx, ref *c05ref, cases []c05case) {
 				continue
 			}
 			// too slow, or the exchange ran out of time before the stall point because the machine was slow
-			if o.elapsed > wantTOf(cs)+c05Slack || cs.k >= ref.total || (cs.kind == "rp" && cs.k == ref.total-1) || !c05reached(ref, cs, o) {
+			if o.elapsed > wantTOf(cs)+c05Slack || cs.k >= ref.total || ((cs.kind == "rp" || cs.kind == "rq") && cs.k == ref.total-1) || !c05reached(ref, cs, o) {
 				again = append(again, i)
 			}
 		}
@@ -906,7 +1068,7 @@ func c05check(c *ctx, ref *c05ref, cases []c05case) {
 	}
 	groupHangs := 0
 	defer func() {
-		if groupHangs > 0 {
+		if groupHangs > 0 && kind != "rq" {
 			c05hangGroups++
 		}
 	}()
@@ -932,7 +1094,7 @@ func c05check(c *ctx, ref *c05ref, cases []c05case) {
 			continue
 		}
 		if o.setupErr != "" {
-			res.Fail("oracle", cl, "could not reach the operation: "+o.setupErr, "setup-failed:"+cs.kind)
+			res.Fail("oracle", cl, "could not reach the operation: "+o.setupErr, "setup-failed:"+c05sig(cs))
 			continue
 		}
 		if !a.ok {
@@ -942,18 +1104,18 @@ func c05check(c *ctx, ref *c05ref, cases []c05case) {
 		stalled := cs.k < ref.total
 		res.Case(fmt.Sprintf("%s/%d/%s/%d/%d", cs.kind, cs.variant, cs.setting, cs.seg, cs.k), a.dom && stalled)
 		if i%97 == 0 {
-			res.Sample(map[string]any{"case": cl, "operation": c05kindName[cs.kind], "exchange_bytes": ref.total, "phase_starts": ref.starts,
+			res.Sample(map[string]any{"case": cl, "operation": c05name(cs), "exchange_bytes": ref.total, "phase_starts": ref.starts,
 				"stall_at": cs.k, "class": o.class, "elapsed_ms": float64(o.elapsed.Microseconds()) / 1000, "spec": a.spec, "model": a.model,
 				"next": o.nextClass + ":" + o.nextRes})
 		}
 		// never a hang, never a panic (these gate whatever the model says)
 		if o.hang {
 			groupHangs++
-			res.Fail("oracle", cl, fmt.Sprintf("%s did not return within %v (stall at byte %d of %d)", c05kindName[cs.kind], c05Watchdog, cs.k, ref.total), "hang:"+cs.kind)
+			res.Fail("oracle", cl, fmt.Sprintf("%s did not return within %v (stall at byte %d of %d)", c05name(cs), c05wd(cs), cs.k, ref.total), "hang:"+c05sig(cs))
 			continue
 		}
 		if o.panicMsg != "" {
-			res.Fail("oracle", cl, fmt.Sprintf("%s panicked: %s (stall at byte %d of %d)", c05kindName[cs.kind], o.panicMsg, cs.k, ref.total), "panic:"+cs.kind)
+			res.Fail("oracle", cl, fmt.Sprintf("%s panicked: %s (stall at byte %d of %d)", c05name(cs), o.panicMsg, cs.k, ref.total), "panic:"+c05sig(cs))
 			continue
 		}
 		if !a.dom {
@@ -964,7 +1126,7 @@ func c05check(c *ctx, ref *c05ref, cases []c05case) {
 			// three runs never got to the stall point within the timeout: outside the quantifier
 			// (the schedule is not "bytes 0..k then silence") -- unless the operation gave up early
 			if wt := e.wantT(c05stalledPhase(ref, cs.k)); o.elapsed < wt-c05Early {
-				res.Fail("oracle", cl, fmt.Sprintf("%s gave up after %v, before the timeout in force %v and before the device stalled", c05kindName[cs.kind], o.elapsed, wt), "early-timeout:"+cs.kind)
+				res.Fail("oracle", cl, fmt.Sprintf("%s gave up after %v, before the timeout in force %v and before the device stalled", c05name(cs), o.elapsed, wt), "early-timeout:"+c05sig(cs))
 			}
 			res.Count("stall-not-reached:" + cs.kind)
 			continue
@@ -990,33 +1152,33 @@ func c05check(c *ctx, ref *c05ref, cases []c05case) {
 		// oracle: the property on the implementation
 		specCls := clsOf(a.spec)
 		if o.class != specCls {
-			sig := "wrong-error-class:" + cs.kind + ":" + o.class
-			detail := fmt.Sprintf("%s with the device silent after byte %d of %d returned error class %s, the property demands %s", c05kindName[cs.kind], cs.k, ref.total, o.class, specCls)
+			sig := "wrong-error-class:" + c05sig(cs) + ":" + o.class
+			detail := fmt.Sprintf("%s with the device silent after byte %d of %d returned error class %s, the property demands %s", c05name(cs), cs.k, ref.total, o.class, specCls)
 			if o.class == "nil" {
-				sig = "success-with-partial-output:" + cs.kind
-				detail = fmt.Sprintf("%s reported success with result %q although the device went silent after byte %d of %d (before completion)", c05kindName[cs.kind], o.result, cs.k, ref.total)
+				sig = "success-with-partial-output:" + c05sig(cs)
+				detail = fmt.Sprintf("%s reported success with result %q although the device went silent after byte %d of %d (before completion)", c05name(cs), o.result, cs.k, ref.total)
 			} else if specCls == "nil" {
-				sig = "spurious-error:" + cs.kind + ":" + o.class
+				sig = "spurious-error:" + c05sig(cs) + ":" + o.class
 			}
 			res.Fail("oracle", cl, detail, sig)
 			continue
 		}
 		if specCls == "nil" {
-			if o.result != ref.result && cs.kind != "rp" {
-				res.Fail("oracle", cl, fmt.Sprintf("%s returned %q, the complete exchange gives %q", c05kindName[cs.kind], o.result, ref.result), "partial-result:"+cs.kind)
+			if o.result != ref.result && cs.kind != "rp" && cs.kind != "rq" {
+				res.Fail("oracle", cl, fmt.Sprintf("%s returned %q, the complete exchange gives %q", c05name(cs), o.result, ref.result), "partial-result:"+c05sig(cs))
 				continue
 			}
-			if cs.kind == "rp" && !strings.Contains(o.result, "<n>0</n><v>ok</v></data></rpc-reply>") {
-				res.Fail("oracle", cl, fmt.Sprintf("RPC returned success with an incomplete reply %q", o.result), "partial-result:rp")
+			if (cs.kind == "rp" || cs.kind == "rq") && !(strings.Contains(o.result, "<n>0</n>") && strings.Contains(o.result, "</rpc-reply>")) {
+				res.Fail("oracle", cl, fmt.Sprintf("RPC returned success with an incomplete reply %q", o.result), "partial-result:"+c05sig(cs))
 				continue
 			}
 		} else {
 			if o.elapsed > wantT+c05Slack {
-				res.Fail("oracle", cl, fmt.Sprintf("%s returned after %v; timeout in force %v + slack %v (three runs)", c05kindName[cs.kind], o.elapsed, wantT, c05Slack), "late-return:"+cs.kind)
+				res.Fail("oracle", cl, fmt.Sprintf("%s returned after %v; timeout in force %v + slack %v (three runs)", c05name(cs), o.elapsed, wantT, c05Slack), "late-return:"+c05sig(cs))
 				continue
 			}
 			if o.elapsed < wantT-c05Early {
-				res.Fail("oracle", cl, fmt.Sprintf("%s gave up after %v, before the timeout in force %v", c05kindName[cs.kind], o.elapsed, wantT), "early-timeout:"+cs.kind)
+				res.Fail("oracle", cl, fmt.Sprintf("%s gave up after %v, before the timeout in force %v", c05name(cs), o.elapsed, wantT), "early-timeout:"+c05sig(cs))
 				continue
 			}
 		}
@@ -1038,12 +1200,12 @@ func c05check(c *ctx, ref *c05ref, cases []c05case) {
 			res.Count("recovery-checked")
 			switch {
 			case o.nextHang:
-				res.Fail("oracle", cl, fmt.Sprintf("after the timed-out %s the next exchange did not return", c05kindName[cs.kind]), "no-recovery:hang:"+cs.kind)
+				res.Fail("oracle", cl, fmt.Sprintf("after the timed-out %s the next exchange did not return", c05name(cs)), "no-recovery:hang:"+c05sig(cs))
 			case o.nextPanic != "":
-				res.Fail("oracle", cl, fmt.Sprintf("after the timed-out %s the next exchange panicked: %s", c05kindName[cs.kind], o.nextPanic), "no-recovery:panic:"+cs.kind)
+				res.Fail("oracle", cl, fmt.Sprintf("after the timed-out %s the next exchange panicked: %s", c05name(cs), o.nextPanic), "no-recovery:panic:"+c05sig(cs))
 			case o.nextClass != "nil" || o.nextRes != e.nextWant:
 				res.Fail("oracle", cl, fmt.Sprintf("after %s (stall at byte %d of %d, class %s) the device caught up, but the next exchange returned class %s result %q, expected %q",
-					c05kindName[cs.kind], cs.k, ref.total, o.class, o.nextClass, o.nextRes, e.nextWant), "no-recovery:"+cs.kind)
+					c05name(cs), cs.k, ref.total, o.class, o.nextClass, o.nextRes, e.nextWant), "no-recovery:"+c05sig(cs))
 			}
 		}
 	}
